@@ -74,6 +74,19 @@ func c01RR(r *fw.R, ar *wire.RR, tn string, canonical bool) {
 	} else if l := dns.Len(rr); l < off {
 		r.Fail("len-underestimates/"+tn, "Len = %d < packed %d for %s", l, off, rrDesc(ar))
 	}
+	// (1b) the same record as the only (= last) record of a message, through Msg.Pack, which sizes its own buffer
+	if perr == nil {
+		m := &dns.Msg{MsgHdr: dns.MsgHdr{Id: 1, Response: true}, Answer: []dns.RR{rr}}
+		if ar.Type == 41 {
+			m.Answer, m.Extra = nil, []dns.RR{rr}
+		}
+		mb, err := m.Pack()
+		if err != nil {
+			r.Fail("msg-pack-error/"+tn, "Msg.Pack of a message whose last record is %s failed: %v", rrDesc(ar), err)
+		} else if !bytes.Equal(mb[12:], want) {
+			r.Fail("msg-pack-layout/"+tn, "Msg.Pack body %x differs from the reference %x", mb[12:], want)
+		}
+	}
 	// (2) unpack(reference octets) == original
 	rr2, off2, uerr := dns.UnpackRR(want, 0)
 	if uerr != nil || off2 != len(want) {
@@ -191,6 +204,10 @@ func c01Spaces(c *fw.Ctx) {
 						h := rr.Header()
 						if h.Rrtype != t || h.Class != cl || h.Ttl != 0 || h.Rdlength != 0 || h.Name != bind.LibName(ar.Name) {
 							r.Fail("no-rdata/header", "UnpackRR(%x) header = %+v", want, *h)
+						}
+						// the typed record Unpack returned for RDLENGTH 0 can be packed again as the last record of a message
+						if _, err := (&dns.Msg{Answer: []dns.RR{rr}}).Pack(); err != nil {
+							r.Fail("no-rdata/typed-repack", "Msg.Pack of the %T returned by UnpackRR for RDLENGTH 0 fails: %v", rr, err)
 						}
 						for _, x := range []dns.RR{&dns.ANY{Hdr: dns.RR_Header{Name: h.Name, Rrtype: t, Class: cl}}, &dns.RR_Header{Name: h.Name, Rrtype: t, Class: cl}} {
 							n, err := dns.PackRR(x, packBuf, 0, nil, false)
